@@ -10,15 +10,16 @@ Variable base : Z -> V.
 Variable over1 over2 : Z -> V -> V.
 Variable has_prot : Z -> bool.
 Variable mf : Z -> V.
+Variable sf : Z -> V.
 Variable reqs : Z -> req.
 
 Notation full := (full V base over1 over2 has_prot).
-Notation run := (run V base over1 over2 has_prot mf).
+Notation run := (run V base over1 over2 has_prot mf sf).
 Notation init := (init V base).
-Notation alone := (alone V base over1 over2 has_prot mf).
-Notation inv := (inv V base over1 over2 has_prot mf reqs).
-Notation tinv := (tinv V base over1 over2 has_prot mf reqs).
-Notation reachable_inv := (reachable_inv V base over1 over2 has_prot mf reqs).
+Notation alone := (alone V base over1 over2 has_prot mf sf).
+Notation inv := (inv V base over1 over2 has_prot mf sf reqs).
+Notation tinv := (tinv V base over1 over2 has_prot mf sf reqs).
+Notation reachable_inv := (reachable_inv V base over1 over2 has_prot mf sf reqs).
 
 Definition reach (s : state V) : Prop :=
   exists sched, run Repaired reqs sched (init Repaired reqs) = Some s.
@@ -54,7 +55,7 @@ Lemma memo_transparent : forall s, reach s ->
   (forall t ks, reqs t = RMemo ks -> tpc (thr s t) = Done -> out (thr s t) = Some (PVals (map mf ks))).
 Proof.
   intros s H. split.
-  - destruct (reach_inv s H) as [(_ & _ & _ & _ & _ & G) _]. exact G.
+  - destruct (reach_inv s H) as [(_ & _ & _ & _ & _ & G & _) _]. exact G.
   - intros t ks Hq Hd. rewrite (no_interference s t H Hd), Hq. reflexivity.
 Qed.
 
@@ -64,6 +65,15 @@ Lemma attrs_transparent : forall s, reach s ->
 Proof.
   intros s H. split.
   - destruct (reach_inv s H) as [(_ & _ & _ & _ & G & _) _]. intros k r Hc. now destruct (G k r Hc).
+  - intros t ks Hq Hd. rewrite (no_interference s t H Hd), Hq. reflexivity.
+Qed.
+
+Lemma sort_transparent : forall s, reach s ->
+  (forall k x, scache s k = Some x -> x = sf k) /\
+  (forall t ks, reqs t = RSort ks -> tpc (thr s t) = Done -> out (thr s t) = Some (PVals (map sf ks))).
+Proof.
+  intros s H. split.
+  - destruct (reach_inv s H) as [(_ & _ & _ & _ & _ & _ & G) _]. exact G.
   - intros t ks Hq Hd. rewrite (no_interference s t H Hd), Hq. reflexivity.
 Qed.
 
@@ -97,7 +107,7 @@ Definition linv (s : state V) : Prop :=
   (forall w, vlock s = Some w -> in_vcrit (tpc (thr s w)) = true) /\
   (forall w, mlock s = Some w -> in_mcrit (tpc (thr s w)) = true).
 
-Notation step := (step V base over1 over2 has_prot mf).
+Notation step := (step V base over1 over2 has_prot mf sf).
 
 Ltac lock_case u :=
   let w := fresh "w" in let Hw := fresh "Hw" in let E := fresh "E" in
